@@ -1,11 +1,12 @@
 import Tcell.Lemmas.ChunkStep
+import Tcell.Lemmas.SgrStrict
 /-
 C02, configuration layer: the hypothesis `Stable cfg` (prefix-free key table, the decidable table guard `keyGuard`,
 decoder laws, repaired clipboard parser when that parser is active), priority stability of every ordered pair of
 `parsers cfg`, and the resulting `step1_mono` / `collect_append`.
 -/
 namespace Tcell.Lemmas.Chunk
-open Tcell Tcell.Model Tcell.Lemmas.Collect Tcell.Lemmas.PrefixFree Tcell.Lemmas.MouseSeq
+open Tcell Tcell.Model Tcell.Lemmas.Collect Tcell.Lemmas.PrefixFree Tcell.Lemmas.MouseSeq Tcell.Lemmas.SgrStrict
 
 def isComplete : Verdict → Bool
   | .complete _ _ _ => true
@@ -131,16 +132,16 @@ theorem sgrRun_min (cfg : Cfg) (st : PState) (n : Nat) (evs : List Event) (st' :
   | cons c rest ih =>
     intro s i h
     unfold sgrRun at h
-    cases hs : sgrStep s c with
+    cases hs : sgrStepV cfg.sgrStrict s c with
     | rej => rw [hs] at h; cases h
     | cont s' =>
       rw [hs] at h
       have := ih s' (i + 1) h
-      have ht := sgrStep_cont_state s s' c hs
+      have ht := sgrStep_cont_state s s' c (sgrStepV_cont _ s s' c hs)
       simp only [List.length_cons]
       omega
     | fin x y btn rel =>
-      have := sgrStep_fin_state s c x y btn rel hs
+      have := sgrStep_fin_state s c x y btn rel (sgrStepV_fin _ s c x y btn rel hs)
       simp only [List.length_cons]
       omega
 
@@ -255,11 +256,11 @@ theorem prio_xterm_sgr (cfg : Cfg) (st : PState) (a b : Bytes) (ha : a ≠ []) :
   obtain ⟨n, evs, st', hc⟩ := hc
   rcases parseXtermMouse_part_inv cfg st a hp with rfl | rfl | rfl | ⟨t, rfl⟩ | rfl | ⟨t, rfl⟩
   · exact ha rfl
-  · simp [parseSgrMouse, sgrRun, sgrStep] at hc
-  · simp [parseSgrMouse, sgrRun, sgrStep] at hc
-  · simp [parseSgrMouse, sgrRun, sgrStep] at hc
-  · simp [parseSgrMouse, sgrRun, sgrStep] at hc
-  · simp [parseSgrMouse, sgrRun, sgrStep] at hc
+  · simp [parseSgrMouse, sgrRun, sgrStepV, sgrKnown, sgrStep] at hc
+  · simp [parseSgrMouse, sgrRun, sgrStepV, sgrKnown, sgrStep] at hc
+  · simp [parseSgrMouse, sgrRun, sgrStepV, sgrKnown, sgrStep] at hc
+  · simp [parseSgrMouse, sgrRun, sgrStepV, sgrKnown, sgrStep] at hc
+  · simp [parseSgrMouse, sgrRun, sgrStepV, sgrKnown, sgrStep] at hc
 
 /-- a completed (repaired) clipboard reply starts with `ESC ] 5` -/
 theorem clipF_complete_head (st : PState) (a : Bytes) (n : Nat) (evs : List Event) (st' : PState)
@@ -280,7 +281,7 @@ theorem prio_sgr_clipF (cfg : Cfg) (st : PState) (a b : Bytes) : Prio st a b (pa
   exfalso
   obtain ⟨n, evs, st', hc⟩ := hc
   obtain ⟨t, rfl⟩ := clipF_complete_head st a n evs st' hc
-  simp [parseSgrMouse, sgrRun, sgrStep, inNum] at hp
+  cases hst : cfg.sgrStrict <;> simp [parseSgrMouse, sgrRun, sgrStepV, sgrKnown, sgrStep, inNum, hst] at hp
 
 /-- every ordered pair of the parser list is priority stable -/
 theorem parsers_prio (cfg : Cfg) (hs : Stable cfg) (st : PState) (a b : Bytes) (ha : a ≠ []) :
@@ -316,8 +317,8 @@ theorem parsers_prio (cfg : Cfg) (hs : Stable cfg) (st : PState) (a b : Bytes) (
   have pk := fun q hq => prio_key cfg hg st a b q hq (later_mono cfg hs q hq)
   have pf_x := prio_focus st a b ha (parseXtermMouse cfg) (by intro n e s h; simp [parseXtermMouse] at h)
     (by intro n e s h; simp [parseXtermMouse, x11Body] at h)
-  have pf_s := prio_focus st a b ha (parseSgrMouse cfg) (by intro n e s h; simp [parseSgrMouse, sgrRun, sgrStep] at h)
-    (by intro n e s h; simp [parseSgrMouse, sgrRun, sgrStep] at h)
+  have pf_s := prio_focus st a b ha (parseSgrMouse cfg) (by intro n e s h; simp [parseSgrMouse, sgrRun, sgrStepV, sgrKnown, sgrStep] at h)
+    (by intro n e s h; simp [parseSgrMouse, sgrRun, sgrStepV, sgrKnown, sgrStep] at h)
   have pf_c := prio_focus st a b ha (parseClipboardV cfg.clipFixed) (clipV_short _ st _ (by decide)) (clipV_short _ st _ (by decide))
   rw [parsers_eq]
   unfold laterParsers at pk ⊢
@@ -405,7 +406,7 @@ theorem sgrRun_ne_amb (cfg : Cfg) (st : PState) : ∀ (r : Bytes) (s : SgrSt) (i
   | cons c rest ih =>
     intro s i h
     unfold sgrRun at h
-    cases hs : sgrStep s c with
+    cases hs : sgrStepV cfg.sgrStrict s c with
     | rej => rw [hs] at h; cases h
     | cont s' => rw [hs] at h; exact ih s' (i + 1) h
     | fin x y btn rel => rw [hs] at h; exact sgrFinish_ne_amb _ _ _ _ _ _ _ h
@@ -527,7 +528,7 @@ theorem isComplete_xterm (cfg cfg' : Cfg) (st : PState) (a : Bytes) :
         rw [e1, e2]; exact isComplete_x11Body cfg cfg' st 1 r0
       · simp [parseXtermMouse, h0, h9]
 
-theorem isComplete_sgrRun (cfg cfg' : Cfg) (st : PState) : ∀ (r : Bytes) (s : SgrSt) (i : Nat),
+theorem isComplete_sgrRun (cfg cfg' : Cfg) (hst : cfg'.sgrStrict = cfg.sgrStrict) (st : PState) : ∀ (r : Bytes) (s : SgrSt) (i : Nat),
     isComplete (sgrRun cfg st s r i) = isComplete (sgrRun cfg' st s r i) := by
   intro r
   induction r with
@@ -535,23 +536,129 @@ theorem isComplete_sgrRun (cfg cfg' : Cfg) (st : PState) : ∀ (r : Bytes) (s : 
   | cons c rest ih =>
     intro s i
     unfold sgrRun
-    cases hs : sgrStep s c with
+    rw [hst]
+    cases hs : sgrStepV cfg.sgrStrict s c with
     | rej => rfl
     | cont s' => exact ih s' (i + 1)
     | fin x y btn rel => simp [isComplete_sgrFinish]
 
-/-- two configurations with the same key table, the same active parsers and the same clipboard variant have the same guard -/
+/-- the strict loop completes only where the pinned loop completes (it rejects more, accepts nothing new) -/
+theorem isComplete_sgrRun_pinned (cfg cfg' : Cfg) (hp : cfg'.sgrStrict = false) (st : PState) : ∀ (r : Bytes) (s : SgrSt) (i : Nat),
+    isComplete (sgrRun cfg st s r i) = true → isComplete (sgrRun cfg' st s r i) = true := by
+  intro r
+  induction r with
+  | nil => intro s i h; exact h
+  | cons c rest ih =>
+    intro s i h
+    unfold sgrRun at h ⊢
+    rw [hp, sgrStepV_false]
+    rcases sgrStepV_cases cfg.sgrStrict s c with e | ⟨e, _, _⟩
+    · rw [e] at h
+      cases hs : sgrStep s c with
+      | rej => rw [hs] at h; exact h
+      | cont s' => rw [hs] at h; exact ih s' (i + 1) h
+      | fin x y btn rel => simp [isComplete_sgrFinish]
+    · rw [e] at h; simp [isComplete] at h
+
+/-- two configurations with the same key table, the same active parsers and the same clipboard and SGR variants have the same guard -/
 theorem keyGuard_congr (cfg cfg' : Cfg) (hk : cfg'.keys = cfg.keys) (hm : cfg'.mouse = cfg.mouse)
-    (hc : cfg'.clipboard = cfg.clipboard) (hf : cfg'.clipFixed = cfg.clipFixed) : keyGuard cfg' = keyGuard cfg := by
+    (hc : cfg'.clipboard = cfg.clipboard) (hf : cfg'.clipFixed = cfg.clipFixed) (hst : cfg'.sgrStrict = cfg.sgrStrict) :
+    keyGuard cfg' = keyGuard cfg := by
   have hl : ∀ s : Bytes, ((laterParsers cfg').all fun q => allStates.all fun st => !isComplete (q st s))
       = ((laterParsers cfg).all fun q => allStates.all fun st => !isComplete (q st s)) := by
     intro s
     unfold laterParsers
     rw [hm, hc, hf]
     cases cfg.mouse <;> cases cfg.clipboard <;>
-      simp [isComplete_xterm cfg' cfg, parseSgrMouse, isComplete_sgrRun cfg' cfg]
+      simp [isComplete_xterm cfg' cfg, parseSgrMouse, isComplete_sgrRun cfg' cfg hst.symm]
   unfold keyGuard
   rw [hk]
   simp only [hl]
+
+/-- the guard of the pinned SGR variant implies the guard of either variant: the strict parser completes on a prefix of
+a key only if the pinned one does -/
+theorem keyGuard_of_pinned (cfg cfg' : Cfg) (hk : cfg'.keys = cfg.keys) (hm : cfg'.mouse = cfg.mouse)
+    (hc : cfg'.clipboard = cfg.clipboard) (hf : cfg'.clipFixed = cfg.clipFixed) (hp : cfg.sgrStrict = false)
+    (hg : keyGuard cfg = true) : keyGuard cfg' = true := by
+  have hl : ∀ s : Bytes, ((laterParsers cfg).all fun q => allStates.all fun st => !isComplete (q st s)) = true →
+      ((laterParsers cfg').all fun q => allStates.all fun st => !isComplete (q st s)) = true := by
+    intro s
+    have hsgr : ∀ st, isComplete (parseSgrMouse cfg st s) = false → isComplete (parseSgrMouse cfg' st s) = false := by
+      intro st h
+      cases h' : isComplete (parseSgrMouse cfg' st s)
+      · rfl
+      · have := isComplete_sgrRun_pinned cfg' cfg hp st s {} 0 h'
+        unfold parseSgrMouse at h; rw [h] at this; cases this
+    unfold laterParsers
+    rw [hm, hc, hf]
+    cases cfg.mouse <;> cases cfg.clipboard <;>
+      simp only [Bool.false_eq_true, if_false, if_true, List.append_nil, List.all_cons, List.all_nil,
+        List.cons_append, List.nil_append, Bool.and_true, Bool.and_eq_true, List.all_eq_true, Bool.not_eq_true',
+        isComplete_xterm cfg' cfg] <;> intro h
+    · exact h
+    · exact h
+    · exact ⟨h.1, h.2.1, fun st hst => hsgr st (h.2.2 st hst)⟩
+    · exact ⟨h.1, h.2.1, fun st hst => hsgr st (h.2.2.1 st hst), h.2.2.2⟩
+  unfold keyGuard at hg ⊢
+  rw [hk]
+  rw [List.all_eq_true] at hg ⊢
+  intro e he
+  have h := hg e he
+  simp only [Bool.and_eq_true, Bool.or_eq_true] at h ⊢
+  refine ⟨h.1, ?_⟩
+  rcases h.2 with h2 | h2
+  · left; exact h2
+  · right; exact hl _ h2
+
+/-! ### the strict SGR loop consumes report bytes only -/
+
+open Tcell.Spec.SgrGrammar in
+/-- invariant of the strict loop (fixes/C02-sgr-strict.patch): if it completes having consumed `n` bytes in all, the
+bytes it read from here on (`n - i` of them) are what remains of an SGR report in state `s` -/
+theorem sgrRun_grammar (cfg : Cfg) (hs : cfg.sgrStrict = true) (st : PState) (n : Nat) (evs : List Event) (st' : PState) :
+    ∀ (r : Bytes) (s : SgrSt) (i : Nat), sgrRun cfg st s r i = .complete n evs st' → okFrom s (r.take (n - i)) = true := by
+  intro r
+  induction r with
+  | nil => intro s i h; simp [sgrRun] at h
+  | cons c rest ih =>
+    intro s i h
+    have hb := sgrRun_bound cfg st n evs st' (c :: rest) s i h
+    unfold sgrRun at h
+    rw [hs] at h
+    cases hstep : sgrStepV true s c with
+    | rej => rw [hstep] at h; cases h
+    | cont s' =>
+      rw [hstep] at h
+      have hb' := sgrRun_bound cfg st n evs st' rest s' (i + 1) h
+      have ih' := ih s' (i + 1) h
+      have e : n - i = (n - (i + 1)) + 1 := by omega
+      rw [e, List.take_succ_cons]
+      exact okFrom_step s s' c _ hstep ih'
+    | fin x y btn rel =>
+      rw [hstep] at h
+      have hn := sgrFinish_complete cfg st x y btn rel (i + 1) n evs st' h
+      have e : n - i = 1 := by omega
+      rw [e]
+      exact okFrom_fin s c x y btn rel hstep
+
+/-- conversely, either variant of the loop completes on every report remainder, exactly at its last byte, whatever follows -/
+theorem sgrRun_of_grammar (cfg : Cfg) (st : PState) (t : Bytes) :
+    ∀ (r : Bytes) (s : SgrSt) (i : Nat), okFrom s r = true →
+      ∃ evs st', sgrRun cfg st s (r ++ t) i = .complete (i + r.length) evs st' := by
+  intro r
+  induction r with
+  | nil => intro s i h; rw [okFrom_nil] at h; cases h
+  | cons c rest ih =>
+    intro s i h
+    by_cases hr : rest = []
+    · subst hr
+      obtain ⟨x, y, btn, rel, hf⟩ := okFrom_fin_conv cfg.sgrStrict s c h
+      simp only [List.cons_append, List.nil_append, sgrRun, hf, List.length_cons, List.length_nil]
+      exact ⟨_, _, rfl⟩
+    · obtain ⟨s', hc, hok⟩ := okFrom_step_conv cfg.sgrStrict s c rest hr h
+      obtain ⟨evs, st', hrun⟩ := ih s' (i + 1) hok
+      refine ⟨evs, st', ?_⟩
+      simp only [List.cons_append, sgrRun, hc, List.length_cons]
+      rw [hrun]; congr 1; omega
 
 end Tcell.Lemmas.Chunk
